@@ -276,6 +276,7 @@ class World {
         void opReorder(const Step &s);
         void opIO(const Step &s);
         void opIndexSet(const Step &s);
+        void opBigCard(const Step &s);
         void opMisuse(const Step &s);
         void opKillForest(const Step &s);
         void opKillDomain(const Step &s);
